@@ -22,3 +22,90 @@ Example len_192 : tl (pgp_hdr 11 192) = [192; 0]. Proof. reflexivity. Qed.
 Example len_8383 : tl (pgp_hdr 11 8383) = [223; 255]. Proof. reflexivity. Qed.
 Example len_8384 : tl (pgp_hdr 11 8384) = [255; 0; 0; 32; 192]. Proof. reflexivity. Qed.
 Example literal_small : pgp_literal [97] [1; 2; 3] = Ok [203; 10; 98; 1; 97; 0; 0; 0; 0; 1; 2; 3]. Proof. reflexivity. Qed.
+
+(* ================================================================== cleartext signatures (lib/pgptools/clearsign.go) *)
+From Relic Require Import FmtPGP.ClearModel.
+From Relic Require FmtPGP.ClearLib FmtPGP.ClearProofs.
+Import FmtPGP.ClearProofs.
+
+(* C05: the text the OpenPGP encoder hashes for ANY document is the canonical text of RFC 4880 5.2.4 / 7.1 (lines cut at LF, trailing
+   blanks and the CR of a CR LF ending removed, CR LF between lines, nothing after the last line) ... *)
+Theorem pgp_cs_hashed_eq_spec : forall doc, enc_hashed doc = spec_canon doc.
+Proof. exact FmtPGP.ClearLib.enc_hashed_eq_canon. Qed.
+(* ... and the cleartext it writes is every line of the document without its trailing blanks, dash-escaped, followed by LF *)
+Theorem pgp_cs_body_eq_spec : forall doc, enc_body doc = concat (map (fun l => esc_line l ++ [LF]) (doc_lines doc)).
+Proof. exact FmtPGP.ClearLib.enc_body_eq_lines. Qed.
+
+(* C01 / C05: for EVERY document (any number of lines, every line length) and every armor the library writes: whenever the signing
+   side (DetachClearSign) and the client side (MergeClearSign) both succeed, an RFC 4880 section 7 reader takes relic's output apart
+   into the Hash header, the lines of the document (none broken, merged or truncated), as text exactly what was hashed, and the
+   signature block exactly as the signing side delivered it, which is the library's armor line by line *)
+Theorem pgp_cs_roundtrip : forall hname doc real_rest fake_rest sig M, ~ In LF hname -> ~ In CR hname ->
+  detach_clearsign hname doc (armor_of real_rest) = Ok sig ->
+  merge_clearsign hname doc (armor_of fake_rest) sig = Ok M ->
+  sig = block_of real_rest /\
+  exists c, spec_read_cleartext M = Some c /\
+            ct_headers c = [rstrip (hash_hdr ++ hname)] /\
+            ct_lines c = map rstrip (doc_lines doc) /\
+            ct_text c = enc_hashed doc /\ ct_text c = spec_canon doc /\
+            ct_sig c = split_lf sig.
+Proof. exact FmtPGP.ClearProofs.cs_roundtrip. Qed.
+(* C01 / C05: hence the signature verifies for any verifier that follows the RFC (packet-level check symbolic) *)
+Theorem pgp_cs_sign_then_verify : forall (sig_ok : bytes -> list bytes -> bool) hname doc real_rest fake_rest sig M,
+  ~ In LF hname -> ~ In CR hname ->
+  detach_clearsign hname doc (armor_of real_rest) = Ok sig ->
+  merge_clearsign hname doc (armor_of fake_rest) sig = Ok M ->
+  sig_ok (enc_hashed doc) (split_lf sig) = true ->
+  rfc_verify sig_ok M = true.
+Proof. exact FmtPGP.ClearProofs.cs_sign_then_verify. Qed.
+(* C03: the payload view *)
+Theorem pgp_cs_text_preserved : forall hname doc real_rest fake_rest sig M, ~ In LF hname -> ~ In CR hname ->
+  detach_clearsign hname doc (armor_of real_rest) = Ok sig ->
+  merge_clearsign hname doc (armor_of fake_rest) sig = Ok M ->
+  exists c, spec_read_cleartext M = Some c /\ ct_lines c = map rstrip (doc_lines doc) /\ length (ct_lines c) = length (doc_lines doc).
+Proof. exact FmtPGP.ClearProofs.cs_text_preserved. Qed.
+(* C01 / C11: a document with an emitted line (trailing blanks removed, "- " added in front of a dash) as long as the token limit of
+   the line reader -- the generated pgp_cs_tail_max_token / pgp_cs_head_max_token, today bufio.MaxScanTokenSize = 65536 on both
+   sides -- is REFUSED with an error: by the signing side, and by the client side ... *)
+Theorem pgp_cs_refuses_long_line : forall hname doc real_rest fake_rest sig, ~ In LF hname -> ~ In CR hname ->
+  (Exists (fun l => pgp_cs_tail_max_token <= zlen (esc_line l)) (doc_lines doc) ->
+   detach_clearsign hname doc (armor_of real_rest) = Err E_TOOLONG) /\
+  (Exists (fun l => pgp_cs_head_max_token <= zlen (esc_line l)) (doc_lines doc) ->
+   merge_clearsign hname doc (armor_of fake_rest) sig = Err E_TOOLONG).
+Proof. exact FmtPGP.ClearProofs.cs_refuses_long_line. Qed.
+(* ... and every other document is signed (the armor lines of the library are 64 characters, hash names a few) *)
+Theorem pgp_cs_signs_short_lines : forall hname doc real_rest fake_rest, ~ In LF hname -> ~ In CR hname ->
+  zlen hname + 6 < pgp_cs_tail_max_token -> zlen hname + 6 < pgp_cs_head_max_token ->
+  Forall (line_fits pgp_cs_tail_max_token) (doc_lines doc) -> Forall (line_fits pgp_cs_head_max_token) (doc_lines doc) ->
+  Forall (fun l => zlen l < pgp_cs_tail_max_token) (split_lf (real_rest ++ pgp_cs_crlf)) ->
+  exists M, detach_clearsign hname doc (armor_of real_rest) = Ok (block_of real_rest) /\
+            merge_clearsign hname doc (armor_of fake_rest) (block_of real_rest) = Ok M.
+Proof. exact FmtPGP.ClearProofs.cs_signs_short_lines. Qed.
+(* C11: neither call can block for ever, whatever the document and whatever the encoder writes *)
+Theorem pgp_cs_no_hang : forall hname doc armor fake_armor sig,
+  (forall p, detach_clearsign hname doc armor <> Panic p) /\ (forall p, merge_clearsign hname doc fake_armor sig <> Panic p).
+Proof. exact FmtPGP.ClearProofs.cs_no_hang. Qed.
+
+(* non-vacuity: a small document with a dash line, trailing blanks, CR LF, a lone CR and no final newline; both sides succeed *)
+Definition ex_sha256 : bytes := [83; 72; 65; 50; 53; 54].
+Definition ex_rest : bytes := [10; 65; 66; 67; 68; 10; 61; 69; 70; 71; 72; 10; 45; 45; 45; 45; 45; 69; 78; 68].
+Definition ex_doc : bytes := [45; 97; 32; 10; 32; 32; 10; 98; 13; 99; 13; 10; 100].
+Example cs_small_detach : detach_clearsign ex_sha256 ex_doc (armor_of ex_rest) = Ok (block_of ex_rest).
+Proof. vm_compute. reflexivity. Qed.
+Example cs_small_merge : exists M, merge_clearsign ex_sha256 ex_doc (armor_of ex_rest) (block_of ex_rest) = Ok M /\
+  option_map ct_text (spec_read_cleartext M) = Some [45; 97; 13; 10; 13; 10; 98; 13; 99; 13; 10; 100].
+Proof. eexists. split; vm_compute; reflexivity. Qed.
+(* the limit (today 65536 on both sides): a line one byte below it is signed, a line of exactly that many bytes is refused *)
+Definition ex_line (n : Z) : bytes := repeat 97 (Z.to_nat n).
+Example cs_limit_below : let n := Z.min pgp_cs_tail_max_token pgp_cs_head_max_token - 1 in
+  is_ok (detach_clearsign ex_sha256 (ex_line n) (armor_of ex_rest)) = true /\
+  is_ok (merge_clearsign ex_sha256 (ex_line n) (armor_of ex_rest) (block_of ex_rest)) = true.
+Proof. split; vm_compute; reflexivity. Qed.
+Example cs_limit_at : detach_clearsign ex_sha256 (ex_line pgp_cs_tail_max_token) (armor_of ex_rest) = Err E_TOOLONG /\
+                      merge_clearsign ex_sha256 (ex_line pgp_cs_head_max_token) (armor_of ex_rest) (block_of ex_rest) = Err E_TOOLONG.
+Proof. split; vm_compute; reflexivity. Qed.
+Example cs_limit_hyp : Exists (fun l => pgp_cs_tail_max_token <= zlen (esc_line l)) (doc_lines (ex_line pgp_cs_tail_max_token)).
+Proof.
+  assert (H : existsb (fun l => pgp_cs_tail_max_token <=? zlen (esc_line l)) (doc_lines (ex_line pgp_cs_tail_max_token)) = true) by (vm_compute; reflexivity).
+  apply existsb_exists in H as [l [Hin Hl]]. apply Exists_exists. exists l. split; [exact Hin|lia].
+Qed.
